@@ -1703,6 +1703,13 @@ class Frame(object):
                 for e in reversed(args[0].elems):
                     rev.append(EachV(e.var, 'reversed(%s)' % e.coll, e.elems) if isinstance(e, EachV) else e)
                 return ListV(rev, args[0].kind)
+            if isinstance(callee, ClassV):          # a local bound to a class: cls = K; cls()
+                record(callee.ci.name)
+                return self._construct(callee.ci, args, kwargs, st, node)
+            if isinstance(callee, Sym) and callee.text != n and n not in BUILTIN_TYPES:
+                # a local holding a callable value: the call is a call of that value, whatever the local is named
+                record(callee.text)
+                return Sym('%s(%s)' % (callee.text, self._argtext(args, kwargs)))
             r = self.prog.lookup(self.module, n)
             if isinstance(r, ClassInfo):
                 record(n)
